@@ -253,8 +253,20 @@ fn markup_case(src: &mut Src, ctx: &mut Ctx) -> Result<(), String> {
         return Ok(());
     }
     ctx.label(&format!("GDSII file -> {} -> GDSII file", fname));
+    // (labelled below once known) 
     ctx.nontrivial(hash_of(&(&m, fname, 1)));
+    // one time in three the markup path has just been used for another library (a conversion's
+    // result must come from its input, not from what the output path held before)
+    let reuse = src.prob(1, 3);
     let r = (|| -> Result<(), String> {
+        if reuse {
+            let other = to_gds(&hostile_gds(src));
+            let gds_other = scratch_path("c18.other.gds");
+            if other.save(&gds_other).is_ok() {
+                let _ = to_markup(&ToMarkupOptions { gds: gds_other.clone(), fmt: fname.to_string(), out: mk.clone(), verbose: false });
+            }
+            let _ = std::fs::remove_file(&gds_other);
+        }
         to_markup(&ToMarkupOptions { gds: gds_in.clone(), fmt: fname.to_string(), out: mk.clone(), verbose: verbose_to }).map_err(|e| format!("to_markup failed: {}", e))?;
         from_markup(&FromMarkupOptions { gds: gds_out.clone(), fmt: fname.to_string(), inp: mk.clone(), verbose: verbose_from }).map_err(|e| format!("from_markup failed: {}", e))?;
         let a = std::fs::read(&gds_in).map_err(|e| e.to_string())?;
